@@ -16,8 +16,17 @@ pub struct V5Parser;
 
 impl V5Parser {
     pub fn parse(packet: &[u8]) -> Result<ParsedNetflow, NetflowParseError> {
+        Self::parse_packet(packet)
+            .map(|(remaining, packet)| ParsedNetflow::new(remaining, packet))
+    }
+
+    /// Like `parse`, but hands back the unparsed tail as a slice of `packet`
+    /// instead of copying it.
+    pub(crate) fn parse_packet(
+        packet: &[u8],
+    ) -> Result<(&[u8], NetflowPacket), NetflowParseError> {
         V5::parse(packet)
-            .map(|(remaining, v5)| ParsedNetflow::new(remaining, NetflowPacket::V5(v5)))
+            .map(|(remaining, v5)| (remaining, NetflowPacket::V5(v5)))
             .map_err(|e| {
                 NetflowParseError::Partial(PartialParse {
                     version: 5,
